@@ -184,7 +184,7 @@ def schedStep (m : Sched) (tok : String) : Sched × String :=
         if m.pending.isSome then (m, "skip") else ({ m with pending := some v }, "pending")
       else
         let (s1, r) := offerCall m.s v
-        ({ m with s := s1 }, r)
+        ({ m with s := s1 }, if r == "full" then s!"full pool={s1.pool.length}" else r)
   | ["p"] => if inpass then (m, "skip") else let (s1, r) := pollCall m.s; ({ m with s := s1 }, r)
   | ["t"] =>
     if inpass then (m, "skip") else
@@ -406,6 +406,8 @@ def trackObs (cap b : Nat) (t : Track) (op obs : String) : Track :=
        | none => flag t "unparsable value")
     | ["nil"] => (match opv with | some v => accept t v | none => t)
     | ["full"] => isFull t
+    | ["full", pk] =>      -- sched: the pool count observed (VerifState) when Offer returned ErrQueueIsFull
+      if pk == s!"pool={b}" then isFull t else flag t s!"ErrQueueIsFull with {pk}, buffer maximum {b}"
     | ["pending"] => { t with pendingV := opv }
     | ["n", k] => if k.toNat? = some t.held then t else flag t s!"Count {k} but accepted - delivered = {t.held}"
     | ["panic"] => flag t "panic"
